@@ -111,6 +111,25 @@ class C01(Prop):
         for n in range(0, 4 if tier == "quick" else 5):
             for combo in itertools.product(lead if n < 4 else lead[::2], repeat=n):
                 ops.append("utf8 " + C.hexs(bytes(combo)))
+        # structured, mostly-valid address texts and single-character edits of them
+        nn = 1500 if tier == "quick" else 40000
+        for _ in range(nn):
+            t4 = V.ip4_text(V.rand_ip4(rng))
+            ops.append("ip4p " + C.hexs(t4))
+            i = rng.randrange(len(t4))
+            ops.append("ip4p " + C.hexs(t4[:i] + rng.choice([b"", b"0", b".", b"9", b"a"]) + t4[i + rng.randint(0, 1):]))
+            gs = V.rand_ip6_groups(rng)
+            for t6 in V.ip6_variants(rng, gs)[:rng.randint(1, 5)]:
+                ops.append("ip6p " + C.hexs(t6))
+                i = rng.randrange(len(t6))
+                ops.append("ip6p " + C.hexs(t6[:i] + rng.choice([b"", b":", b"0", b"f", b".", b"1.", b"g"]) + t6[i + rng.randint(0, 1):]))
+            pt = str(V.rand_port(rng)).encode()
+            ops.append("u16p " + C.hexs(pt))
+            ops.append("u16p " + C.hexs(rng.choice([b"", b"0", b"+", b"6"]) + pt + rng.choice([b"", b"0", b"5"])))
+        for extra in V.valid_lines(rng, 600 if tier == "quick" else 6000):
+            ops.append("v1b " + C.hexs(extra + rng.choice(V.TRAILERS)))
+            if V.valid_utf8(extra):
+                ops.append("v1s " + C.hexs(extra))
         for g in range(0, 1 << 16, 257 if tier == "quick" else 17):
             for txt in ("%x::" % g, "::%X" % g, "%04x:0:0:0:0:0:0:%x" % (g, g), "1:2:3:4:5:6:%d.%d.%d.%d" % (g >> 8, g & 255, g & 255, g >> 8)):
                 ops.append("ip6p " + C.hexs(txt.encode()))
